@@ -5,8 +5,9 @@ outc's translated byte sets, %XX, &#N;).  NOT proved: the global equation.  It i
 implementation: documents from the standard construct grammar x width {0,1..120} x list_style x ol_width 0..8 x
 prefer_fenced x GFM; H2 must equal H1 after strip_end_list_comments / collapse_nested_strong; every failure is
 shrunk (ddmin on the document, option removal, width reduction) and must fall into a class of
-known_findings.json (decidable predicates in tools/checks/rtfam.py, seven of them extracted from
-Spec/RoundTrip.v and cross-checked); anything else is a violation."""
+known_findings.json (decidable predicates in tools/checks/rtfam.py, eight of them extracted from
+Spec/RoundTrip.v and cross-checked); anything else is a violation.  A deterministic sweep of small structures
+(rtfam.grid_cases: block pairs x container contexts, word triples x wrap widths) is classified without shrinking."""
 import vlib
 from checks import rtfam
 
